@@ -426,3 +426,29 @@ Example ex_text :
   write_string_desc false (AList (AScalar T_BYTE)) [] [49; 44; 45; 49; 44; 50; 53; 53] = (encode (VList T_BYTE [VByte 1; VByte (-1); VByte (-1)]), 0) /\
   write_string_desc false (AList (AScalar T_BYTE)) [] [49; 44; 120] = ([3; 0; 0; 0; 2; 1], 1).                 (* "1,x": header and first piece stay *)
 Proof. vm_compute. repeat split; reflexivity. Qed.
+
+(* ================================================================== container headers with a provisional count, patched in place *)
+(* Write{List,Map}BeginWithSizePos record the position of the count; ModifyI32 at that position replaces the count whatever follows
+   it - also nothing (the count is then the LAST i32 of the buffer); with the number of elements it yields the encoded list; a
+   position that leaves fewer than four bytes is an error and changes nothing (model/ThriftSizePos.v, check 1931) *)
+From DG Require Import ThriftSizePos ThriftSizePosProofs.
+
+Theorem C19_size_pos_patch :
+  (forall pre et prov n elems,
+     let '(buf, pos) := list_begin_pos pre et prov in modify_i32 pos n (buf ++ elems) = (pre ++ list_begin et n ++ elems, 0)) /\
+  (forall pre kt vt prov n elems,
+     let '(buf, pos) := map_begin_pos pre kt vt prov in modify_i32 pos n (buf ++ elems) = (pre ++ map_begin kt vt n ++ elems, 0)) /\
+  (forall pre et prov es,
+     let '(buf, pos) := list_begin_pos pre et prov in
+     modify_i32 pos (zlen es) (buf ++ flat_map encode es) = (pre ++ encode (VList et es), 0)) /\
+  (forall pos v buf, zlen buf < pos + 4 -> modify_i32 pos v buf = (buf, 1)).
+Proof.
+  split; [exact list_size_patch|]. split; [exact map_size_patch|]. split; [exact list_written_with_patched_count | exact modify_i32_out_of_range].
+Qed.
+Print Assumptions C19_size_pos_patch.
+
+Example ex_size_pos :
+  modify_i32 1 0 (fst (list_begin_pos [] T_I32 7)) = ([8; 0; 0; 0; 0], 0) /\              (* empty list: the count is the last i32 *)
+  modify_i32 2 0 (fst (list_begin_pos [] T_I32 7)) = ([8; 0; 0; 0; 7], 1) /\
+  modify_i32 (-1) 0 (fst (list_begin_pos [] T_I32 7)) = ([8; 0; 0; 0; 7], 3).            (* as coded: p.Buf[:-1] panics *)
+Proof. vm_compute. repeat split; reflexivity. Qed.
